@@ -1,6 +1,7 @@
 package main
 
 import (
+	"go/token"
 	"fmt"
 	"go/constant"
 	"go/types"
@@ -270,11 +271,50 @@ func checkC09(c *Check) {
 	// 5. single owner
 	singleOwner(c, t)
 
+	// 5b. the end-of-session predicates look at the whole hold queue
+	nep := 0
+	for _, fn := range p.AllRepoFuncs() {
+		// boolean functions of the tracker's package that compare an event
+		// type with the credential-disposal constant
+		if fn.Blocks == nil || FuncPkgPath(fn) != ModPath+"/"+pkgTracker || fn.Signature.Results().Len() != 1 {
+			continue
+		}
+		if bt, isB := fn.Signature.Results().At(0).Type().Underlying().(*types.Basic); !isB || bt.Kind() != types.Bool {
+			continue
+		}
+		cmp := false
+		er := NewResolver(p)
+		allInstrs(fn, func(in ssa.Instruction) {
+			b, ok := in.(*ssa.BinOp)
+			if !ok || (b.Op != token.EQL && b.Op != token.NEQ) {
+				return
+			}
+			for _, pair := range [][2]ssa.Value{{b.X, b.Y}, {b.Y, b.X}} {
+				o := er.Of(pair[0])
+				if k, isK := pair[1].(*ssa.Const); isK && o.K == "field" && o.Name == "Type" && k.Value != nil && k.Value.Kind() == constant.Int && k.Int64() == t.CredDisp {
+					cmp = true
+				}
+			}
+		})
+		if !cmp {
+			continue
+		}
+		nep++
+		okC, why := t.scansWholeQueue(fn)
+		c.Cond(okC, "end-evidence-complete", "end-of-session predicate "+fn.Name(), p.Pos(fn.Pos()), "true as soon as any held event is the credential-disposal record, false only after the whole queue was examined", "the predicate can miss a held credential-disposal record ("+why+"): an ended session is not released when its late login arrives, and a later sshd with the same PID is bound to it")
+	}
+	c.Floor("end-of-session predicates on the hold queue", 1, nep)
+
 	// 6. the end-of-session record of a session still waiting for its login
 	// is in the hold queue: every delivered event of an unbound session is
 	// held (never dropped), in a queue that is the object's own (rules of C02)
 	ne := importRules(c, "C02", checkC02, "end-record-held: ", "exactly-one-of", "hold-iff-unbound", "queue-private")
 	c.Floor("imported end-record-held obligations", 10, ne)
+	// 7. the login of the new sshd with a reused PID reaches the correlator:
+	// every accepted login is handed over, whatever PIDs were seen before
+	// (rules of C05)
+	nl := importRules(c, "C05", checkC05, "login-reaches-correlator: ", "handoff-always-after-write", "handoff-only-cancellation-gives-up", "who-may-send")
+	c.Floor("imported login-reaches-correlator obligations", 8, nl)
 }
 
 // containsUserPtr: type mentions *user (directly, in a slice, array, map,
@@ -623,4 +663,73 @@ func finderKeyResult(p *Prog, u *Org) int {
 		}
 	}
 	return -1
+}
+
+
+// scansWholeQueue: the predicate compares the type of every element of the
+// receiver's hold queue: the compared element is the value of a range over
+// the queue, or queue[i] with i counting from 0 up to len(queue)-1, and no
+// 'false' is returned from inside the loop.
+func (t *Tracker) scansWholeQueue(fn *ssa.Function) (bool, string) {
+	r := NewResolver(t.P)
+	okElem := false
+	why := "the compared event is not an element visited by a scan of the whole queue"
+	allInstrs(fn, func(in ssa.Instruction) {
+		b, ok := in.(*ssa.BinOp)
+		if !ok || b.Op != token.EQL && b.Op != token.NEQ {
+			return
+		}
+		for _, side := range []ssa.Value{b.X, b.Y} {
+			o := r.Of(side)
+			if o.K != "field" || o.Name != "Type" {
+				continue
+			}
+			ev := o.Sub[0]
+			switch {
+			case ev.K == "range" && ev.Name == "value":
+				if q := ev.Sub[0]; (q.K == "field" && q.Name == "cached") || q.K == "param" {
+					okElem = true
+				}
+			case ev.K == "index":
+				q := ev.Sub[0]
+				if (q.K == "field" && q.Name == "cached") || q.K == "param" {
+					// the index must be an ascending counter over the whole queue
+					var idx ssa.Value
+					if ld, isLd := ev.V.(*ssa.UnOp); isLd {
+						if ia, isIA := ld.X.(*ssa.IndexAddr); isIA {
+							idx = ia.Index
+						}
+					}
+					if ia, isIA := ev.V.(*ssa.IndexAddr); isIA {
+						idx = ia.Index
+					}
+					if idx != nil {
+						if okAsc, w := ascendingFromZero(r, idx, q); okAsc {
+							okElem = true
+						} else {
+							why = "the compared event is queue[" + trimOrg(r.Of(idx).String()) + "]: " + w
+						}
+					}
+				}
+			}
+		}
+	})
+	if !okElem {
+		return false, why
+	}
+	// no 'false' from inside the loop
+	bad := false
+	allInstrs(fn, func(in ssa.Instruction) {
+		ret, ok := in.(*ssa.Return)
+		if !ok || len(ret.Results) != 1 {
+			return
+		}
+		if k, isK := ret.Results[0].(*ssa.Const); isK && k.Value != nil && k.Value.Kind() == constant.Bool && !constant.BoolVal(k.Value) && inLoop(ret) {
+			bad = true
+		}
+	})
+	if bad {
+		return false, "false is returned from inside the scan, before the remaining events were examined"
+	}
+	return true, ""
 }
